@@ -34,6 +34,41 @@ def _toupper(v):
     return v - 32 if 97 <= v <= 122 else v
 
 
+# the "C" locale, which is what the library is specified against (cJSON never calls setlocale)
+_CTYPE_PREDICATES = {
+    'isdigit': lambda c: 48 <= c <= 57, 'isupper': lambda c: 65 <= c <= 90, 'islower': lambda c: 97 <= c <= 122,
+    'isalpha': lambda c: 65 <= c <= 90 or 97 <= c <= 122, 'isalnum': lambda c: 48 <= c <= 57 or 65 <= c <= 90 or 97 <= c <= 122,
+    'isxdigit': lambda c: 48 <= c <= 57 or 65 <= c <= 70 or 97 <= c <= 102, 'isspace': lambda c: c in (9, 10, 11, 12, 13, 32),
+    'isblank': lambda c: c in (9, 32), 'iscntrl': lambda c: c < 32 or c == 127, 'isprint': lambda c: 32 <= c <= 126,
+    'isgraph': lambda c: 33 <= c <= 126, 'ispunct': lambda c: 33 <= c <= 126 and not (48 <= c <= 57 or 65 <= c <= 90 or 97 <= c <= 122),
+}
+# bit of each class in glibc's table on a little-endian target (_ISbit)
+_GLIBC_BITS = {'isupper': 256, 'islower': 512, 'isalpha': 1024, 'isdigit': 2048, 'isxdigit': 4096, 'isspace': 8192, 'isprint': 16384,
+               'isgraph': 32768, 'isblank': 1, 'iscntrl': 2, 'ispunct': 4, 'isalnum': 8}
+
+
+def _is_ctype_table(b):
+    b = strip_casts(b)
+    if b.get('k') == 'un' and b['op'] == '*':
+        c = strip_casts(b['e'])
+        if c.get('k') == 'call' and callee_name(c) in ('__ctype_b_loc', '__ctype_tolower_loc', '__ctype_toupper_loc'):
+            return callee_name(c)
+    return None
+
+
+def _ctype_value(table, x):
+    c = x & 255
+    if table == '__ctype_tolower_loc':
+        return _tolower(c) if 0 <= x <= 255 else x
+    if table == '__ctype_toupper_loc':
+        return _toupper(c) if 0 <= x <= 255 else x
+    return sum(bit for name, bit in _GLIBC_BITS.items() if 0 <= x <= 255 and _CTYPE_PREDICATES[name](c))
+
+
+def access_is_load(e):
+    return e.get('k') == 'un' and e.get('op') == '*'
+
+
 class Segment(object):
     def __init__(self):
         self.start = None      # 'entry' | loop-head node id
@@ -358,6 +393,17 @@ class Explorer(object):
             val = self.helper_value(callee_name(e), tuple(args))
             if val is None:
                 return None
+        elif k == 'idx' and _is_ctype_table(e['b']) is not None:
+            # glibc's <ctype.h> macros: (*__ctype_b_loc())[c] is the class word of c, (*__ctype_tolower_loc())[c] its lower case
+            x = self.ev(e['i'], st, subst, loadpos)
+            if x is None or not (-128 <= x <= 255):
+                return None
+            val = _ctype_value(_is_ctype_table(e['b']), x)
+        elif k == 'call' and callee_name(e) in _CTYPE_PREDICATES and len(e['args']) == 1:
+            x = self.ev(e['args'][0], st, subst, loadpos)
+            if x is None or not (0 <= x <= 255):
+                return None
+            val = int(_CTYPE_PREDICATES[callee_name(e)](x))
         elif k == 'call' and callee_name(e) in ('tolower', 'toupper') and len(e['args']) == 1:
             x = self.ev(e['args'][0], st, subst, loadpos)
             if x is None or not (0 <= x <= 255):
@@ -365,21 +411,34 @@ class Explorer(object):
             val = _tolower(x) if callee_name(e) == 'tolower' else _toupper(x)
         else:
             return None
+        # conversions: every node carries the type it is converted to implicitly ('ty') and, when that differs, its own type
+        # ('ty0'); an explicit cast converts to its own type first (`(unsigned char)(c - 'A')` used as an int wraps at 8 bits)
         c = e0
         chain = []
         while c.get('k') == 'cast':
             chain.append(c)
             c = c['e']
+        if k in ('bin', 'un') and e.get('op') not in CMP_OPS and e.get('op') not in ('&&', '||', '!') and not access_is_load(e):
+            val = self.convert(val, e.get('ty0', e.get('ty')))      # the arithmetic itself wraps in its own type
+        if 'ty0' in e and e.get('k') != 'cast':
+            val = self.convert(val, e['ty'])
         for cst in reversed(chain):
-            t = self.u.ty(cst['ty'])
-            if t['c'] in ('int', 'bool') and t.get('bits'):
-                bits = t['bits']
-                if t['c'] == 'bool':
-                    val = int(bool(val))
-                    continue
-                val &= (1 << bits) - 1
-                if not t.get('unsigned') and val >= (1 << (bits - 1)):
-                    val -= (1 << bits)
+            if 'ty0' in cst:
+                val = self.convert(val, cst['ty0'])
+            val = self.convert(val, cst['ty'])
+        return val
+
+    def convert(self, val, tyid):
+        if tyid is None:
+            return val
+        t = self.u.ty(tyid)
+        if t['c'] == 'bool':
+            return int(bool(val))
+        if t['c'] == 'int' and t.get('bits'):
+            bits = t['bits']
+            val &= (1 << bits) - 1
+            if not t.get('unsigned') and val >= (1 << (bits - 1)):
+                val -= (1 << bits)
         return val
 
     def helper_value(self, name, args):
